@@ -39,7 +39,7 @@ RESOLUTIONS = ["480p (640 x 480)", "720p (1280 x 720)", "1080p (1920 x 1080)", "
 
 
 def sv(ctx_env, slot, default, unit):
-    return SourceValue(ctx_env.get(slot, default) * u(unit))
+    return SourceValue(ctx_env.get(slot, default) * u(ctx_env.unit_of(slot, unit)))
 
 
 def usage_side(env, jobs, n=2):
